@@ -13,6 +13,8 @@ generated file                         source
   OhkamiModel/GenStatus.lean           ohkami/src/response/status.rs `status!{..}`
   OhkamiModel/GenMime.lean             ohkami_lib/src/mime.rs
   OhkamiModel/GenConsts.lean           request/mod.rs BUF_SIZE / PAYLOAD_LIMIT, request/path.rs Params::LIMIT
+  OhkamiModel/GenFieldName.lean        request/mod.rs: the byte set of a header name (the `matches!` pattern of the header loop)
+  OhkamiModel/GenShutdown.lean         ohkami/mod.rs: order of the steps of UntilInterrupt::poll (flag first? re-check after publishing the waker?)
   OhkamiModel/GenSchemaTypes.lean      ohkami_openapi/src/schema.rs `Type::*::NAME`
   OhkamiModel/GenNum.lean              ohkami_lib/src/num.rs: the `unroll!` digit list of itoa, the nibble arms of hexized
   harness/src/gen_tables.rs            the variant lists as Rust macros (so the executor can address every header/status by name)
@@ -205,6 +207,47 @@ def gen_consts():
     return '\n'.join(out) + '\n'
 
 
+def gen_field_name():
+    """the bytes `Request::read` admits in a header name: the `matches!(b, ..)` pattern of the header loop, as closed ranges"""
+    rq = read('ohkami/src/request/mod.rs')
+    m = re.search(r"let key_bytes = r\.read_while\(\|b\| b != &b':'\);(.*?)r\.consume\(\": \"\)", rq, re.S)
+    if not m:
+        raise TranslateError('header loop of Request::read: `key_bytes` .. `consume(": ")` not found')
+    chk = re.search(r"\(!key_bytes\.is_empty\(\) && key_bytes\.iter\(\)\.all\(\|b\| matches!\(b,(.*?)\)\)\)\.then_some\(\(\)\)\.ok_or_else\(Response::BadRequest\)\?;", m.group(1), re.S)
+    if not chk:
+        raise TranslateError('header loop of Request::read: the check of the field name (not empty, every byte in a `matches!` set, else 400) is not in the form the translator reads')
+    ranges, text = [], chk.group(1)
+    tok = re.compile(r"b'(\\?.)'(?:\s*\.\.=\s*b'(\\?.)')?", re.S)
+    for m2 in tok.finditer(text):
+        lo = ord(m2.group(1)[-1]); hi = ord(m2.group(2)[-1]) if m2.group(2) else lo
+        ranges.append((lo, hi))
+    if not ranges or tok.sub('', text).replace('|', '').strip():
+        raise TranslateError(f'field-name pattern outside the fragment: {text.strip()!r}')
+    out = ['/-! GENERATED from ohkami/src/request/mod.rs: the bytes admitted in a request header name (closed ranges) -/', 'namespace Ohkami.Gen',
+           'def fieldNameRanges : List (Nat × Nat) := [' + ', '.join(f'({a}, {b})' for a, b in ranges) + ']', 'end Ohkami.Gen']
+    return '\n'.join(out) + '\n'
+
+
+def gen_shutdown():
+    """the order of the steps of `UntilInterrupt::poll` (ohkami/src/ohkami/mod.rs): the two parameters of the Lean transition system"""
+    src = read('ohkami/src/ohkami/mod.rs')
+    m = re.search(r"impl<F: Future> Future for UntilInterrupt<F> \{(.*?)\n                \}\n", src, re.S)
+    if not m:
+        raise TranslateError('UntilInterrupt::poll not found')
+    body = m.group(1)
+    inner = body.find('.poll(cx)')
+    first_catch = body.find('CATCH.load(')
+    swap = body.find('WAKER.swap(')
+    if inner < 0 or first_catch < 0 or swap < 0:
+        raise TranslateError('UntilInterrupt::poll: inner poll / CATCH.load / WAKER.swap not found')
+    flag_first = first_catch < inner and re.search(r"if CATCH\.load\(Ordering::SeqCst\) \{\s*return Poll::Ready\(None\)\s*\}", body[:inner]) is not None
+    recheck = re.search(r"if CATCH\.load\(Ordering::SeqCst\) \{\s*return Poll::Ready\(None\)\s*\}", body[swap:]) is not None
+    out = ['/-! GENERATED from ohkami/src/ohkami/mod.rs (`UntilInterrupt::poll`): does the poll look at CATCH before it polls the wrapped future, and again after it',
+           '    published its waker?  These are the parameters `flagFirst` / `fixed` of `Ohkami.Shutdown2.step`. -/', 'namespace Ohkami.Gen',
+           f'def pollFlagFirst : Bool := {"true" if flag_first else "false"}', f'def pollRecheck : Bool := {"true" if recheck else "false"}', 'end Ohkami.Gen']
+    return '\n'.join(out) + '\n'
+
+
 def gen_schema_types():
     src = read('ohkami_openapi/src/schema.rs')
     rows = re.findall(r'impl Sealed for (\w+)\s*\{\s*const NAME: &\'static str = "([^"\\]*)";\s*\}', src)
@@ -271,6 +314,8 @@ def run(verbose=False):
     st = emit('GenStatus', gen_status)
     emit('GenMime', gen_mime)
     emit('GenConsts', gen_consts)
+    emit('GenFieldName', gen_field_name)
+    emit('GenShutdown', gen_shutdown)
     emit('GenSchemaTypes', gen_schema_types)
     emit('GenNum', gen_num)
     if rq and rs and st:
